@@ -60,8 +60,10 @@ func goTypeProjected(s node, v goVariant, pr projection, path string, rngPerm fu
 			fields = append(fields, reflect.StructField{Name: fmt.Sprintf("F%d", i), Type: ft, Tag: reflect.StructTag(fmt.Sprintf(`json:"%s"`, nodeStr(f, "name")))})
 		}
 		if pr.add {
-			fields = append(fields, reflect.StructField{Name: "Extra1", Type: reflect.TypeOf(""), Tag: `json:"not_in_file"`},
-				reflect.StructField{Name: "Extra2", Type: reflect.TypeOf([]int64(nil)), Tag: `json:"not_in_file2"`})
+			// fields the file does not contain, declared ahead of and after the real ones
+			fields = append([]reflect.StructField{{Name: "Extra0", Type: reflect.TypeOf(int64(0)), Tag: `json:"not_in_file0"`},
+				{Name: "Extra1", Type: reflect.TypeOf(""), Tag: `json:"not_in_file"`}}, fields...)
+			fields = append(fields, reflect.StructField{Name: "Extra2", Type: reflect.TypeOf([]int64(nil)), Tag: `json:"not_in_file2"`})
 		}
 		return reflect.StructOf(fields), nil
 	case "array":
@@ -149,6 +151,8 @@ func driveVectors(c *driverCtx, prop string) error {
 				}
 				targets = append(targets, tgt{fmt.Sprintf("variant%d", vi), t})
 			}
+			// the whole record skipped (multi-branch and null-second unions are legal to skip too)
+			targets = append(targets, tgt{"skip-all", reflect.TypeOf(struct{}{})})
 		} else {
 			perm := func(n int) []int { return c.rng.Perm(n) }
 			projs := []projection{
